@@ -19,7 +19,23 @@ REQUIRED = [
     "DaeVerif.C10.Props.driver_mirror_flag",
     "DaeVerif.C10.Props.table_mirrors_tracker",
     "DaeVerif.C10.Props.unguarded_worker_breaks_mirror",
+    "DaeVerif.C10.Props.failed_put_sync_breaks_mirror",
+    "DaeVerif.C10.Props.refresh_after_failed_put_repairs",
 ]
+
+# generator reach: below a floor the run is not evidence (exit 2). Values = ~40 % of what quick / seed 1 yields.
+FLOORS = {
+    "t.histories_with_shared_address": 80, "t.histories_with_failure_injection": 50,
+    "inject.update_batch_failed": 60, "inject.delete_batch_failed": 20, "t.op.retry_after_failure": 80,
+    "t.op.no_bpf_objects": 60, "t.op.no_domain_routing_map": 5, "t.op.upd_bad_bitmap_len": 60, "t.op.empty_owner": 60,
+    "c.ops_ending_with_a_shared_address": 800, "c.op.put_unkeyed": 120, "c.op.reload": 80, "c.op.rollback": 25,
+    "c.histories_with_two_or_more_reloads": 20, "c.histories_with_10_to_40_keys": 5, "c.janitor_runs_over_lru_limit": 12,
+    "c.refresh_task_for_replaced_or_removed_entry": 20, "c.refresh_task_for_current_entry": 5,
+    "c.histories_with_real_goroutine_loops": 50, "c.op.jan_real_ticker": 100, "c.janitor_evictions_by_real_ticker": 25,
+    "c.op.work_by_real_worker": 20, "c.histories_with_late_started_worker": 15, "c.op.put_with_failed_publish": 15, "c.op.fam_removed_several_scopes": 2,
+    "gen.answers.large_6_64": 100, "gen.answers.huge_300": 5, "gen.answers.unspecified": 500, "gen.bitmap.zero": 800,
+    "gen.host.mixed_case": 300,
+}
 
 HOOK_DECLS = '''
 
@@ -106,6 +122,7 @@ def run(ctx):
         streams[name] = (ops, impl, model)
 
     n_eval = 0
+    n_lag = 0
     n_mirror_broken = 0
     n_drift = 0
     drift_samples = []
@@ -135,7 +152,11 @@ def run(ctx):
                 f = fields(st)
                 # property-level oracle on the implementation: the shadow of the kernel table equals the
                 # specification evaluated on the real cache contents
-                if f.get("m") == "0":
+                if f.get("m") == "0" and any(o.startswith("putf ") for o in history_of(lops, i + 1)):
+                    # an injected publish failure earlier in this history: the table may lag (theorem
+                    # failed_put_sync_breaks_mirror); model and implementation must still agree (strict diff)
+                    n_lag += 1
+                elif f.get("m") == "0":
                     n_mirror_broken += 1
                     if n_mirror_broken <= 3:
                         hist = history_of(lops, i + 1)
@@ -143,6 +164,7 @@ def run(ctx):
                                    {"stream": name, "line": i + 1, "op": op, "impl": im, "history": hist,
                                     "replay": "VERIF_SEED=%d ./check C10 %s" % (ctx.seed, ctx.tier)})
     ctx.cov["mirror_broken_lines"] = n_mirror_broken
+    ctx.cov["lines_lagging_after_injected_publish_failure"] = n_lag
     ctx.cov["bookkeeping_drift_lines"] = n_drift
     if n_drift:
         ctx.cov["bookkeeping_drift_samples"] = drift_samples
@@ -156,10 +178,21 @@ def run(ctx):
     cops = read_lines(streams["c10c"][0])
     ctx.samples = stats["samples"][:4] + [o for o in cops if o.startswith("put ")][:3] + [o for o in cops if o.startswith(("fam ", "jan ", "hot ", "look ", "reload "))][:5]
     ctx.cov["input_distribution"] = stats["counters"]
+    low = {k: (stats["counters"].get(k, 0), v) for k, v in FLOORS.items() if stats["counters"].get(k, 0) < v}
+    ctx.cov["generator_floors"] = {"floors": FLOORS, "below": low}
     ctx.assumptions = [
         "histories are generated (seeded): 1-6 owners / cache keys (10 % of the cache histories 10-40), address pool 1-8 (forces overlap), answers of 0-64 records (1 % 300), 1-60 ops",
         "batch syscalls succeed in the cache stream (failing batches are injected in the tracker stream only)",
     ]
+    rc_floor = 0
+    if low:
+        ctx.say("GENERATOR-BELOW-FLOOR (counter: got < floor): " + json.dumps(low))
+        rc_floor = 2
+    rc_fin = _finish(ctx, n_eval, distinct)
+    return rc_fin or rc_floor
+
+
+def _finish(ctx, n_eval, distinct):
     return ctx.finish(
         rule="ops = one tracker call (tupd/trm, with or without an injected batch failure) or one cache operation (put keyed/unkeyed, del, fam, look, hot, jan, sleep, work, touch, reload) "
              "or a full state dump; on every line the strict part is compared (call accepted?, size and fingerprint of the whole table, cache size, mirror flag of the independent Go oracle; on dumps "
